@@ -1,4 +1,4 @@
-import Proofs.Lemmas.LowerIcaseV
+import Proofs.Lemmas.LowerStringsV
 /-!
 # ES specification ⇒ IR semantics: the induction over the AST
 
@@ -13,10 +13,11 @@ open Regress Regress.IR Regress.VM Regress.Parse
 /-! ## The supported fragment -/
 
 /-- Class-like atoms: without `i` (`classSupported`), with `i` under `u` (`classSupportedIU`) or
-with `i` under `v` (`classSupportedIV`). -/
+with `i` under `v` (`classSupportedIV`); `v`-mode classes with `\\q{…}` strings without `i`
+(`classSupportedS`). -/
 def classSupportedAny (fl : IR.Flags) (n : ES.Node) : Bool :=
   classSupported fl n || (fl.icase && fl.unicode && !fl.unicodeSets && classSupportedIU fl n) ||
-    (fl.icase && fl.unicode && fl.unicodeSets && classSupportedIV fl n)
+    (fl.icase && fl.unicode && fl.unicodeSets && classSupportedIV fl n) || classSupportedS fl n
 
 theorem unicode_of_icase {fl : IR.Flags} (hs : fl.icase = false ∨ fl.unicode = true) (hfi : fl.icase = true) :
     fl.unicode = true := by
@@ -418,28 +419,32 @@ theorem lower_node (ht : Utf8Text inp cs) (pattern : ES.Node) (total : Nat) (hto
       rw [hid hb0 hlb]
   | .esc e, fl, rer, pi, back, ir, hfl, hiu, hs, hl, hb => by
     simp only [supported, classSupportedAny, Bool.or_eq_true, Bool.and_eq_true, Bool.not_eq_true'] at hs
-    rcases hs with (hs | ⟨⟨⟨h1, h2⟩, h3⟩, h4⟩) | ⟨⟨⟨h1, h2⟩, h3⟩, h4⟩
+    rcases hs with ((hs | ⟨⟨⟨h1, h2⟩, h3⟩, h4⟩) | ⟨⟨⟨h1, h2⟩, h3⟩, h4⟩) | hs
     · exact lower_class_node ht pattern total _ fl rer pi back ir hfl hs hl
     · exact lower_class_node_iu ht pattern total _ fl rer pi back ir hfl h1 h2 h3 h4 hl
     · exact lower_class_node_iv ht pattern total _ fl rer pi back ir hfl h1 h2 h3 h4 hl
+    · exact lower_class_node_s ht pattern total _ fl rer pi back ir hfl hs hl
   | .prop neg kind name, fl, rer, pi, back, ir, hfl, hiu, hs, hl, hb => by
     simp only [supported, classSupportedAny, Bool.or_eq_true, Bool.and_eq_true, Bool.not_eq_true'] at hs
-    rcases hs with (hs | ⟨⟨⟨h1, h2⟩, h3⟩, h4⟩) | ⟨⟨⟨h1, h2⟩, h3⟩, h4⟩
+    rcases hs with ((hs | ⟨⟨⟨h1, h2⟩, h3⟩, h4⟩) | ⟨⟨⟨h1, h2⟩, h3⟩, h4⟩) | hs
     · exact lower_class_node ht pattern total _ fl rer pi back ir hfl hs hl
     · exact lower_class_node_iu ht pattern total _ fl rer pi back ir hfl h1 h2 h3 h4 hl
     · exact lower_class_node_iv ht pattern total _ fl rer pi back ir hfl h1 h2 h3 h4 hl
+    · exact lower_class_node_s ht pattern total _ fl rer pi back ir hfl hs hl
   | .cls neg items, fl, rer, pi, back, ir, hfl, hiu, hs, hl, hb => by
     simp only [supported, classSupportedAny, Bool.or_eq_true, Bool.and_eq_true, Bool.not_eq_true'] at hs
-    rcases hs with (hs | ⟨⟨⟨h1, h2⟩, h3⟩, h4⟩) | ⟨⟨⟨h1, h2⟩, h3⟩, h4⟩
+    rcases hs with ((hs | ⟨⟨⟨h1, h2⟩, h3⟩, h4⟩) | ⟨⟨⟨h1, h2⟩, h3⟩, h4⟩) | hs
     · exact lower_class_node ht pattern total _ fl rer pi back ir hfl hs hl
     · exact lower_class_node_iu ht pattern total _ fl rer pi back ir hfl h1 h2 h3 h4 hl
     · exact lower_class_node_iv ht pattern total _ fl rer pi back ir hfl h1 h2 h3 h4 hl
+    · exact lower_class_node_s ht pattern total _ fl rer pi back ir hfl hs hl
   | .vcls neg op ops, fl, rer, pi, back, ir, hfl, hiu, hs, hl, hb => by
     simp only [supported, classSupportedAny, Bool.or_eq_true, Bool.and_eq_true, Bool.not_eq_true'] at hs
-    rcases hs with (hs | ⟨⟨⟨h1, h2⟩, h3⟩, h4⟩) | ⟨⟨⟨h1, h2⟩, h3⟩, h4⟩
+    rcases hs with ((hs | ⟨⟨⟨h1, h2⟩, h3⟩, h4⟩) | ⟨⟨⟨h1, h2⟩, h3⟩, h4⟩) | hs
     · exact lower_class_node ht pattern total _ fl rer pi back ir hfl hs hl
     · exact lower_class_node_iu ht pattern total _ fl rer pi back ir hfl h1 h2 h3 h4 hl
     · exact lower_class_node_iv ht pattern total _ fl rer pi back ir hfl h1 h2 h3 h4 hl
+    · exact lower_class_node_s ht pattern total _ fl rer pi back ir hfl hs hl
 theorem lower_list (ht : Utf8Text inp cs) (pattern : ES.Node) (total : Nat) (htot : ES.countParens pattern ≤ total) :
     ∀ (ns : List ES.Node) (fl : IR.Flags) (rer : ES.RER) (pi : Nat) (back : Bool) (xs : List Node),
       FlagsRel rer fl → inp.unicode = fl.unicode → supportedList pattern fl ns = true →
